@@ -13,6 +13,39 @@ type Graph struct {
 	Names []string // canonical path of each file (relative to the project root)
 	Edges [][]int  // Edges[i] = import targets of file i, in textual order
 	Spell [][]string
+	Kind  []string // per file: "" (sysl), "yaml" (OpenAPI 2 leaf), "pbjson" (compiled-model leaf)
+}
+
+// AddForeignLeaf appends a foreign-format leaf file imported by file `from`.
+func (g *Graph) AddForeignLeaf(from int, kind string) int {
+	k := len(g.Names)
+	for len(g.Kind) < k {
+		g.Kind = append(g.Kind, "")
+	}
+	switch kind {
+	case "yaml":
+		g.Names = append(g.Names, fmt.Sprintf("leaf%d.yaml", k))
+		g.Spell[from] = append(g.Spell[from], fmt.Sprintf("leaf%d.yaml as Foreign :: Leaf%d", k, k))
+	default:
+		g.Names = append(g.Names, fmt.Sprintf("model%d.pb.json", k))
+		g.Spell[from] = append(g.Spell[from], fmt.Sprintf("model%d.pb.json", k))
+	}
+	if d := path.Dir(g.Names[from]); d != "." {
+		// spelled root-relative so that the directory of the importer does not matter
+		g.Spell[from][len(g.Spell[from])-1] = "/" + g.Spell[from][len(g.Spell[from])-1]
+	}
+	g.Kind = append(g.Kind, kind)
+	g.Edges[from] = append(g.Edges[from], k)
+	g.Edges = append(g.Edges, nil)
+	g.Spell = append(g.Spell, nil)
+	return k
+}
+
+func (g *Graph) kind(i int) string {
+	if i < len(g.Kind) {
+		return g.Kind[i]
+	}
+	return ""
 }
 
 var nodeNames = []string{"root.sysl", "a.sysl", "sub/b.sysl", "sub/deep/c.sysl", "d.sysl", "sub/e.sysl", "other/f.sysl", "g.sysl", "sub/deep/h.sysl"}
@@ -98,6 +131,14 @@ func (g *Graph) Render() map[string]string {
 	out := map[string]string{}
 	for i, n := range g.Names {
 		var b strings.Builder
+		switch g.kind(i) {
+		case "yaml":
+			out[n] = fmt.Sprintf("swagger: \"2.0\"\ninfo:\n  title: Leaf%d\n  version: \"1\"\npaths: {}\ndefinitions:\n  Thing%d:\n    type: object\n    properties:\n      id:\n        type: string\n", i, i)
+			continue
+		case "pbjson":
+			out[n] = fmt.Sprintf("{\"apps\": {\"FromJson%d\": {\"name\": {\"part\": [\"FromJson%d\"]}}}}\n", i, i)
+			continue
+		}
 		for _, sp := range g.Spell[i] {
 			b.WriteString("import " + sp + "\n")
 		}
